@@ -298,3 +298,10 @@ def run(ctx):
     # common-input tables) are the documented ones: R09.1
     from rules import formatrules
     ctx.step(formatrules.constants, ctx)
+    # a file of any supported version answers queries according to its content only if every node accessor reads the offsets the
+    # format assigns (with the index present from version 2 on): the reader half of the layout table, shared with C01 / C02
+    from rules import readerrules
+    R1 = ctx.rule('R01.1', 'reader offsets of every node accessor equal the positions the format table assigns (shared with C01)', floor=30)
+    R2 = ctx.rule('R02.2', 'scan / index agreement on the reader side (shared with C02)', floor=2)
+    ctx.step(readerrules.run, ctx, R1, R2)
+    ctx.step(formatrules.state_and_sizes_bits, ctx)
